@@ -54,7 +54,9 @@ def np_hook(interp, d, args, kwargs, node):
         if n.is_const() and 2 <= n.as_int() <= 400:
             k = n.as_int()
             return NArr([(a + (b - a) * Rat.const(Fraction(i, k - 1)), Rat.const(1)) for i in range(k)])
-        return Rat.atom(("ramp", str(a), str(b), str(n)))
+        # symbolic length: one run whose generic element i (0-based) is a + (b - a) x i / (n - 1)
+        from .symx import EIDX
+        return NArr([(a + (b - a) * Rat.atom(EIDX) / (n - Rat.const(1)), n)])
     if d == "np.append" and len(args) == 2:
         sa, sb = _segs(args[0]), _segs(args[1])
         if sa is not None and sb is not None:
